@@ -5,6 +5,7 @@ import EaselModel.Msafile.PsiblastLemmas
 import EaselModel.Msafile.PhylipLemmas
 import EaselModel.Msafile.SelexLemmas
 import EaselModel.Msafile.StockholmLemmas
+import EaselModel.Msafile.StoGrowth
 import EaselModel.Msafile.AbcTables
 import EaselModel.Msafile.GuessLemmas
 /-! # C01 — alignment input is total: property theorems (statements + glue; lemmas live in `Msafile/*Lemmas.lean`)
@@ -561,6 +562,54 @@ example : (stockholmRead (stockholmCfg none) (splitLines [])).1 matches .eof := 
 example : (stockholmRead (stockholmCfg none) (splitLines [35,32,83,84,79,67,75,72,79,76,77,32,49,46,48,10,97,32,65,10])).1 matches .eformat _ := by
   decide +kernel     -- no "//"
 example : stockholmCfg (some abcRna) ∈ stoConfigs := by simp [stoConfigs]
+
+
+/-! ### growth of the per-sequence arrays (`Msafile/StoGrowth.lean`)
+
+`stockholm_get_seqidx` is the only place where `esl_msa_Expand` + `stockholm_parsedata_ExpandSeq` run (17th, 33rd, 65th …
+name).  Pointwise statement of the growth bookkeeping, for EVERY state and name: the slots `0 .. salloc-1` of `sqlen`, of
+every allocated `sslen/salen/pplen` and of EVERY `ogr_len[tag]` keep their value, the new slots are 0, no tag row appears
+or disappears, the consensus lengths and `ogc_len` are untouched.  (The reader's invariant is preserved by the same step:
+`expandAll_inv`, used by `stockholm_total`.) -/
+
+theorem sto_growth_keeps_lens (st st' : StoSt) (name : Bytes) (idx : Nat) (h : getSeqIdx st name = .ok (st', idx)) :
+    ∃ k, GrownBy k 0 st.sqlen st'.sqlen ∧ st'.ogrLen.length = st.ogrLen.length ∧
+      (∀ (t : Nat) (row : List Nat), st.ogrLen[t]? = some row → ∃ row', st'.ogrLen[t]? = some row' ∧ GrownBy k 0 row row') ∧
+      (∀ (j : Nat) (lns : List Nat), st.perLen[j]? = some (some lns) → ∃ lns', st'.perLen[j]? = some (some lns') ∧ GrownBy k 0 lns lns') ∧
+      st'.consLen = st.consLen ∧ st'.ogcLen = st.ogcLen :=
+  getSeqIdx_keeps_lens st st' name idx h
+
+/-- a recorded `#=GR <seq> <tag>` length survives the arrival of any later sequence name -/
+theorem sto_growth_keeps_ogr_slot (st st' : StoSt) (name : Bytes) (idx t z len : Nat) (row : List Nat)
+    (h : getSeqIdx st name = .ok (st', idx)) (hr : st.ogrLen[t]? = some row) (hz : row[z]? = some len) :
+    ∃ row', st'.ogrLen[t]? = some row' ∧ row'[z]? = some len :=
+  getSeqIdx_keeps_ogr_slot st st' name idx t z len row h hr hz
+
+/-- `stockholm_parsedata_ExpandSeq` alone, per unparsed tag -/
+theorem sto_expandseq_ogr (st : StoSt) (t : Nat) (row : List Nat) (h : st.ogrLen[t]? = some row) :
+    ∃ row', (pdExpandSeq st).ogrLen[t]? = some row' ∧ GrownBy (st.sqalloc - st.salloc) 0 row row' :=
+  (pdExpandSeq_ogrLen st t).2 row h
+
+/-! non-vacuity: a full MSA (16 names, one unparsed #=GR tag with a recorded length 5 for sequence 0) meets a 17th name:
+    the arrays double, slot 0 still holds 5, slots 16..31 are 0 -/
+def exFullSt : StoSt :=
+  { names := (List.range 16).map (fun i => [UInt8.ofNat (97 + i)]), nseq := 16, grTags := [[84]],
+    gr := [List.replicate 16 none], ogrLen := [5 :: List.replicate 15 0] }
+
+example : (match getSeqIdx exFullSt [122] with
+    | .ok (st', idx) => idx == 16 && st'.sqalloc == 32 && st'.salloc == 32 && st'.ogrLen == [5 :: List.replicate 31 0] &&
+        st'.sqlen.length == 32
+    | .error _ => false) = true := by decide +kernel
+
+/-- 17 sequences `a`..`q`, two blocks, `#=GR a T` in both blocks (recorded before the 17th name arrives), names introduced
+    by the block itself: accepted -/
+def exSto17 : Bytes :=
+  [35,32,83,84,79,67,75,72,79,76,77,32,49,46,48,10,97,32,65,10,35,61,71,82,32,97,32,84,32,46,10,98,32,65,10,99,32,65,10,100,32,65,10,101,32,65,10,102,32,65,10,103,32,65,10,104,32,65,10,105,32,65,10,106,32,65,10,107,32,65,10,108,32,65,10,109,32,65,10,110,32,65,10,111,32,65,10,112,32,65,10,113,32,65,10,10,97,32,67,10,35,61,71,82,32,97,32,84,32,42,10,98,32,67,10,99,32,67,10,100,32,67,10,101,32,67,10,102,32,67,10,103,32,67,10,104,32,67,10,105,32,67,10,106,32,67,10,107,32,67,10,108,32,67,10,109,32,67,10,110,32,67,10,111,32,67,10,112,32,67,10,113,32,67,10,47,47,10]
+
+example : (stockholmRead (stockholmCfg none) (splitLines exSto17)).1 matches .ok _ := by decide +kernel
+example : (match (stockholmRead (stockholmCfg none) (splitLines exSto17)).1 with
+    | .ok m => m.nseq == 17 && m.alen == 2 && m.gr == [([84], some [46, 42] :: List.replicate 16 none)]
+    | _ => false) = true := by decide +kernel
 
 
 /-! # ===================== AUTODETECT section: the open path `msafile_OpenBuffer` =====================
